@@ -117,6 +117,11 @@ class Gen:
                 idx = [r.randrange(len(sz)) for _ in range(r.randint(0, len(sz) + 1))]
                 if self.prop == "C12": idx = r.sample(range(len(sz)), r.randint(1, len(sz)))
                 lines.append("I %d %d %s" % (g, q, " ".join(map(str, idx)))); sizes[q] = [sz[i] for i in idx]
+            elif x < 0.69:
+                q, t = r.sample([k for k in range(NREG) if k != g], 2)
+                idx = r.sample(range(len(sz)), r.randint(0, len(sz)))     # distinct, in any order
+                lines.append("K %d %d %d %s" % (g, q, t, " ".join(map(str, idx))))
+                sizes[q] = [sz[i] for i in idx]; sizes[t] = [sz[i] for i in range(len(sz)) if i not in idx]
             elif x < 0.74:
                 q = r.choice([k for k in range(NREG) if k != g]); k = r.randint(0, n)
                 lines.append("T %d %d %d" % (g, q, k))
@@ -255,6 +260,10 @@ def monitor(case, iout, prop):
             elif c == "I":
                 r, q = a[0], a[1]
                 if R[q] != [old[r][k] for k in a[2:]]: fail(i, "indexedSubset does not return the indexed batches")
+            elif c == "K":
+                r, q, t = a[0], a[1], a[2]; idx = a[3:]
+                if R[q] != [old[r][k] for k in idx]: fail(i, "indexedSubset(idx,subset,complement): subset is not the indexed batches")
+                if R[t] != [old[r][k] for k in range(len(old[r])) if k not in idx]: fail(i, "indexedSubset(idx,subset,complement): complement is not the remaining batches in order")
             elif c == "B":
                 r = a[0]; e = flat(old[r]); want = sorted(e, key=lambda x: x[1])   # stable by class
                 if flat(R[r]) != want: fail(i, "repartitionByClass: not the class-stable order")
